@@ -774,7 +774,10 @@ def _extern_module(E, name):
         from . import aio
         return aio.make_inspect_module(E)
     if name == 'dataclasses':
-        return ExternModule('dataclasses', {})
+        return ExternModule('dataclasses', {'dataclass': Builtin('dataclass', lambda *a, **k: (a[0] if a else (lambda c: c)))})
+    if top in ('rx', 'reactivex'):
+        from . import rxmodel
+        return rxmodel.make_rx_module(E, name)
     if top in ('rsocket', 'reactivestreams', 'tests', 'performance', 'examples'):
         return None
     return ExternModule(name, {})
